@@ -60,7 +60,10 @@ BLACKLIST = {204: {'content-type'},
                    'content-md5', 'last-modified'}}
 DICT_OPS = ['setitem', 'append', 'setdefault']
 ATTR_OPS = ['content_type', 'content_length', 'expires']
-CTOR_OPS = ['ctor_dict', 'ctor_list', 'ctor_kw', 'error_kw', 'ctor_both']      # ctor_both: the name is in `headers` AND given as a keyword
+CTOR_OPS = ['ctor_dict', 'ctor_list', 'ctor_kw', 'error_kw', 'ctor_both', 'ctor_hd', 'ctor_hdu', 'ctor_gen', 'ctor_mp']
+# `headers` given as a HeaderDict (filled by its constructor / by update()), a generator of pairs, a read-only mapping: whether such an
+# argument is taken at all is not judged (a constructor that refuses it has put nothing on the wire) - but what is taken is checked
+LENIENT_CTOR = ('ctor_hd', 'ctor_hdu', 'ctor_gen', 'ctor_mp')      # ctor_both: the name is in `headers` AND given as a keyword
 
 
 def strings(n):
@@ -100,6 +103,8 @@ class Model:
             name = 'Content-Type'
         elif op == 'content_length':
             name = 'Content-Length'
+        if op == 'peek':
+            return True
         if op == 'setdefault' and isinstance(v, list):
             # a list offered to setdefault is a multi-value offer: every element is a value of its own
             if not all(acceptable(e) for e in v):
@@ -143,6 +148,17 @@ def run_program(om, prog, status, via):
                     r = om.HTTPResponse('', status, **{name: v})
                 elif op == 'ctor_both':
                     r = om.HTTPResponse('', status, headers={name: 'base'}, **{name: v})
+                elif op == 'ctor_hd':
+                    r = om.HTTPResponse('', status, headers=sut.sub('common_helpers').HeaderDict({name: v}))
+                elif op == 'ctor_hdu':
+                    hd = sut.sub('common_helpers').HeaderDict()
+                    hd.update({name: v})
+                    r = om.HTTPError(status, '', headers=hd)
+                elif op == 'ctor_gen':
+                    r = om.HTTPResponse('', status, headers=((k, x) for k, x in [(name, v)]))
+                elif op == 'ctor_mp':
+                    import types
+                    r = om.HTTPResponse('', status, headers=types.MappingProxyType({name: v}))
                 else:
                     r = om.HTTPError(status, '', **{name: v})
                 raised.append(False)
@@ -196,6 +212,9 @@ def apply_real(r, op, name, v):
             r.headers.append(name, v)
         elif op == 'setdefault':
             r.headers.setdefault(name, v)
+        elif op == 'peek':
+            list(r.headerlist)           # somebody looks at the header list (a log line, a debugger, a middleware) before the response is final
+            repr(r)
         elif op == 'content_type':
             r.content_type = v
         elif op == 'content_length':
@@ -217,11 +236,13 @@ def judge(om, prog, status, via):
     for op, name, v in prog:
         if op == 'ctor_both':
             m.apply('append', name, 'base')          # the entry of `headers` comes first, the keyword value is a further value
-        mop = {'ctor_dict': 'append', 'ctor_list': 'append', 'ctor_kw': 'append', 'error_kw': 'append', 'ctor_both': 'append'}.get(op, op)
+        mop = 'append' if op in CTOR_OPS else op
         exp_raise.append(not m.apply(mop, name, v))
         if exp_raise[-1] and op in CTOR_OPS:
             break
     raised, hl, err = run_program(om, prog, status, via)
+    if prog[0][0] in LENIENT_CTOR and raised and raised[0]:
+        return None
     if err:
         return 'emit-crash', err
     if raised != exp_raise:
@@ -339,6 +360,10 @@ def shards(tier, seed):
             for start in (0, 1):
                 out.insert(0, ('threads', st, how, start, 1 if tier == 'quick' else 2))
     out.append(('blacklist', None, None, None, 'base'))
+    # multi-valued headers built up by appends with looks at the header list in between: all programs of <= 4 operations
+    for via in ('base', 'wsgi'):
+        for first in range(len(MULTI_OPS)):
+            out.append(('multi', first, None, 4 if tier == 'quick' else 5, via))
     out.append(('cookies', None, None, 3 if tier == 'quick' else 4, 'wsgi'))
     # seed extension: one more character joins the alphabet (all strings <= 2 containing it, all dict ops)
     out.append(('extra', ['\x0b', '\x0c', '\x85', ' ', '\x7f', '\x1b', '\xff'][seed % 7], None, 2, 'base'))
@@ -350,8 +375,36 @@ def bounds(tier, seed):
             'names': NAMES, 'statuses': STATUSES, 'entry_points': DICT_OPS + ATTR_OPS + CTOR_OPS, 'max_operations': 2}
 
 
-FLOORS = {'cookie_responses': 1000, 'redirects': 1000, 'schedules': 1000, 'rejected': 1000, 'accepted': 1000, 'blacklisted_withheld': 100, 'non_ascii_roundtrip': 500, 'multi_valued': 100,
+FLOORS = {'multi_programs': 1000, 'cookie_responses': 1000, 'redirects': 1000, 'schedules': 1000, 'rejected': 1000, 'accepted': 1000, 'blacklisted_withheld': 100, 'non_ascii_roundtrip': 500, 'multi_valued': 100,
           'wsgi_programs': 200}
+
+
+MULTI_OPS = [('append', 'Vary', 'a'), ('append', 'Vary', 'b'), ('append', 'Vary', 'c'), ('peek', None, None), ('setitem', 'Vary', 'z'),
+             ('append', 'Content-Length', '0')]
+
+
+def work_multi(spec):
+    _, first, _, n, via = spec
+    res = core.new_result()
+    om = sut.load()
+    c = res['counters']
+    for k in range(1, n + 1):
+        for rest in itertools.product(range(len(MULTI_OPS)), repeat=k - 1):
+            prog = [MULTI_OPS[first]] + [MULTI_OPS[i] for i in rest]
+            res['states'] += 1
+            res['transitions'] += len(prog)
+            c['multi_programs'] += 1
+            if any(o[0] == 'peek' for o in prog[:-1]):
+                res['nontrivial'] += 1
+            v = judge(om, prog, 200, via)
+            res['outcomes'].add('multi ' + ('ok' if v is None else v[0]))
+            if v is not None:
+                core.add_violation(res, {'prog': [list(o) for o in prog], 'status': 200, 'via': via},
+                                   f'{"handler on the application response" if via == "wsgi" else "HTTPResponse object"}: operations {prog!r} (peek = the header list is read): {v[1]}',
+                                   sig='multi:' + v[0])
+    res['execs'] = res['states']
+    core.add_sample(res, {'multi_ops': [list(o) for o in MULTI_OPS], 'first': first, 'max_operations': n, 'via': via})
+    return res
 
 
 def work_threads(spec):
@@ -446,6 +499,8 @@ def work(spec):
         return work_threads(spec)
     if spec[0] == 'cookies':
         return work_cookies(spec)
+    if spec[0] == 'multi':
+        return work_multi(spec)
     kind, a, b, n, via = spec
     res = core.new_result()
     om = sut.load()
